@@ -305,7 +305,7 @@ type seqRunner struct {
 	exec func(c *runCtx, ops []string)
 }
 
-func (r seqRunner) engine() engine {
+func (r seqRunner) engine() engineFn {
 	return func(c *runCtx) error {
 		if c.replay != "" {
 			seqs, err := c.replayLines()
